@@ -128,7 +128,7 @@ def D(k):
 def run_case(fn):
     del LOG[:]
     try:
-        r = fn()
+        r = fn(O('x', True), O('y', False), O('z', True))
         res = nm(r)
     except BaseException as e:
         res = 'EXC ' + type(e).__name__ + ': ' + str(e)[:200]
@@ -234,10 +234,10 @@ def r_stmt(s):
 
 
 def r_func(name, s):
-    """def <name>(): variables x, y, z pre-bound to logging objects (silently); the statement; the
-    returned value shows the result and the final variable values."""
-    L = ["def %s():" % name,
-         "    x = O('x', True); y = O('y', False); z = O('z', True); r = None",
+    """def <name>(x, y, z): the variables x, y, z are bound to logging objects by the caller; the statement;
+    the returned value shows the result and the final variable values."""
+    L = ["def %s(x, y, z):" % name,
+         "    r = None",
          "    " + r_stmt(s),
          "    return (r, x, y, z)"]
     return "\n".join(L) + "\n"
@@ -497,7 +497,7 @@ def enum_small(rng, quick=False):
     # calls: every ordered argument-kind pattern up to 3 arguments (syntactically valid ones)
     for n in range(0, 4):
         for pat in itertools.product("pskd", repeat=n):
-            if not valid_args(pat):
+            if not valid_args(pat) or (quick and n == 3 and rng.random() < 0.6):
                 continue
             names = iter(["ka", "kb", "kc"])
             args = []
@@ -762,7 +762,7 @@ def classify(model, s, base_out):
 
 def check_stmts(ctx, stmts, tag):
     model = ctx.model("evalorder")
-    impl, orac = build_and_run(ctx.workdir, stmts, tag=tag, jobs=4)
+    impl, orac = build_and_run(ctx.workdir, stmts, tag=tag, jobs=6, chunk=100)
     flags = asis_flags()
     m_asis = model.batch(model_lines(stmts, flags))
     m_ref = model.batch(["ref " + " ".join(t_stmt(s)) for s in stmts])
@@ -819,10 +819,11 @@ def run(ctx):
     quick = ctx.tier == "quick"
     small = enum_small(ctx.rng, quick)
     check_stmts(ctx, small, "c20e")
-    ctx.extra.setdefault("exhaustive_domains", []).append(
-        "call argument-kind patterns (positional/keyword/*/**) of length <= 3, plain and method calls: all %d"
-        % (2 * sum(1 for n in range(4) for p in itertools.product("pskd", repeat=n) if valid_args(p))))
-    nrand = 120 if quick else 3000
+    if not quick:
+        ctx.extra.setdefault("exhaustive_domains", []).append(
+            "call argument-kind patterns (positional/keyword/*/**) of length <= 3, plain and method calls: all %d"
+            % (2 * sum(1 for n in range(4) for p in itertools.product("pskd", repeat=n) if valid_args(p))))
+    nrand = 90 if quick else 2000
     rnd = gen_random(ctx.rng, nrand // 3, 2) + gen_random(ctx.rng, nrand // 3, 3) + gen_random(ctx.rng, nrand - 2 * (nrand // 3), 4)
     check_stmts(ctx, rnd, "c20r")
 
